@@ -677,11 +677,19 @@ func (t *c15Trace) monitors(fl []string, class string, pre c15Snap, preLocks []l
 
 	// branch bookkeeping for naming paging differences
 	if op == "begin" {
+		// all due upcoming streams are activated by the first BeforeEpochStart of the block (identifiers
+		// tick in the order day, hour, week); a stream joins cleanly only if that is its own epoch's start
+		firstTick := -1
+		for i, id := range c15Epochs {
+			if post.epochNo[id] != pre.epochNo[id] && firstTick < 0 {
+				firstTick = i
+			}
+		}
 		for id := range post.active {
 			if !pre.active[id] {
 				s, _ := sk.GetStreamByID(f.Ctx, id)
-				if s != nil && post.epochNo[s.DistrEpochIdentifier] == pre.epochNo[s.DistrEpochIdentifier] {
-					t.midEpochJoin = true // became active at another identifier's epoch start
+				if s != nil && firstTick >= 0 && c15Epochs[firstTick] != s.DistrEpochIdentifier {
+					t.midEpochJoin = true
 					r.Hit("stream-activated-mid-epoch")
 				}
 			}
